@@ -107,4 +107,6 @@ def chunk_ranges_violations(R, size, chunk, offset, overlap, align):
         bad.append('chunk_ranges_cover')
     if align and any(a % (chunk - overlap) for a, _ in R[1:]):
         bad.append('chunk_ranges_aligned')
+    if any(b >= stop for _, b in R[:-1]):
+        bad.append('chunk_ranges_end_reached_once')   # "end at offset+size": nothing follows the range that reaches it
     return bad
